@@ -424,7 +424,7 @@ def run(ctx):
                         "first_pair": [fh(x) for x in o["entries"][0]["e"]] if o["entries"] else None})
     have_model = all(os.path.exists(os.path.join(COQ, p)) for p in ("Gen/Poling.vo", "Proofs/C19_tac.vo"))
     if have_model:
-        correspondence(ctx, obs, "", max_win=500 if quick else 2500)
+        correspondence(ctx, obs, "", max_win=300 if quick else 2500)
     else:
         ctx.note("correspondence cases skipped: generated model or case tactics did not compile")
     if (not proved or ctx.case_failures or any(not v["found_input"] for v in ctx.violations)) and not any(v["found_input"] for v in ctx.violations):
